@@ -52,6 +52,13 @@ type lcModel struct {
 	Cur [lcDocs]int             // current generation of the key (bumped by remove)
 	Has [lcDocs]bool            // a live document exists for the key
 	Log [lcDocs]int             // changes stored in the current generation (not part of the canonical state)
+	// Half: a refused attach (attx) happened for this pair since the client's
+	// last successful attach / activation. It changes nothing about what the
+	// state machine accepts; it is part of the canonical state so that the
+	// state is reported (not part of the canonical state).
+	Half [lcClients][lcDocs]bool
+	// AllowX: attx is part of the alphabet (part (c) only)
+	AllowX bool
 }
 
 func newLcModel() *lcModel {
@@ -106,6 +113,7 @@ func (m *lcModel) step(e lcEvent) (accept bool, removedFlag bool) {
 		m.Cli[c] = 'a'
 		for dd := range m.Att[c] {
 			m.Att[c][dd] = 'n'
+			m.Half[c][dd] = false
 		}
 		return true, false
 	case "deact":
@@ -132,6 +140,7 @@ func (m *lcModel) step(e lcEvent) (accept bool, removedFlag bool) {
 		}
 		m.Att[c][d] = 'a'
 		m.Gen[c][d] = m.Cur[d]
+		m.Half[c][d] = false
 		return true, false
 	case "attr":
 		// re-attach with the old (already detached) document instance: refused
@@ -150,7 +159,14 @@ func (m *lcModel) step(e lcEvent) (accept bool, removedFlag bool) {
 		}
 		m.Att[c][d] = 'a'
 		m.Gen[c][d] = m.Cur[d]
+		m.Half[c][d] = false
 		return true, false
+	case "attx":
+		// an attach request that the server has to refuse after it started
+		// working on it (the pack's client sequence has a gap): never accepted,
+		// and the client is as little attached afterwards as before
+		m.Half[c][d] = true
+		return false, false
 	case "pp":
 		if m.Cli[c] != 'a' || m.Att[c][d] != 'a' {
 			return false, false
@@ -192,6 +208,12 @@ func (m *lcModel) enabled() []lcEvent {
 			if m.Att[c][d] == 'd' && m.Gen[c][d] == m.Cur[d] && m.Has[d] && m.Cli[c] == 'a' {
 				out = append(out, lcEvent{"attr", c, d})
 			}
+			// a failing attach, where the document exists and this client holds no
+			// attachment to it (seeded change C11-4: what a half-done attach leaves
+			// in the client's row must not count as attached)
+			if m.AllowX && m.Cli[c] == 'a' && m.Has[d] && m.Att[c][d] != 'a' {
+				out = append(out, lcEvent{"attx", c, d})
+			}
 		}
 	}
 	return out
@@ -218,6 +240,8 @@ type lcImpl struct {
 	closed []chan struct{}
 	// every document id this namespace has seen (digest)
 	seenDocIDs []string
+	// digest: leave out this client's entry for this document (attx)
+	maskClient, maskDoc string
 }
 
 const lcUnknownID = "000000000000000000000001"
@@ -328,6 +352,23 @@ func (im *lcImpl) do(e lcEvent) lcResult {
 		rd.docID = res.Msg.DocumentId
 		im.docs[c][d] = rd
 		return lcResult{ok: true, removed: pack.IsRemoved}
+	case "attx":
+		bad := im.newDoc(c, d)
+		for i := 0; i < 2; i++ {
+			im.val++
+			v := im.val
+			_ = bad.doc.Update(func(r *yjson.Object, p *document.Presence) error { r.SetInteger("k", v); return nil })
+		}
+		pack := bad.doc.CreateChangePack()
+		pack.Changes = pack.Changes[1:] // the first change is missing: client sequence starts at 2
+		pbPack, err := converter.ToChangePack(pack)
+		if err != nil {
+			return lcErr(err)
+		}
+		if _, err := im.stub.AttachDocument(im.ctx, connect.NewRequest(&api.AttachDocumentRequest{ClientId: im.clientID(c), ChangePack: pbPack})); err != nil {
+			return lcErr(err)
+		}
+		return lcResult{ok: true}
 	case "pp", "det", "rm":
 		rd := im.docs[c][d]
 		docID := lcUnknownID
@@ -447,6 +488,11 @@ func (im *lcImpl) digest() string {
 		fmt.Fprintf(&sb, "client %s status=%s", c.ID, c.Status)
 		for _, id := range ids {
 			cd := c.Documents[types.ID(id)]
+			if cid == im.maskClient && id == im.maskDoc {
+				// a refused attach may leave its "attaching" marker in this one
+				// entry (it counts as not attached: the following events check that)
+				continue
+			}
 			fmt.Fprintf(&sb, " [%s %s %d/%d]", id, cd.Status, cd.ServerSeq, cd.ClientSeq)
 		}
 		sb.WriteByte('\n')
@@ -493,6 +539,12 @@ func lcReplay(r *hist.Runner, seq []lcEvent) (*lcModel, string) {
 		wasRemovedGen := m.Att[e.C][e.D] == 'a' && (m.Gen[e.C][e.D] != m.Cur[e.D] || !m.Has[e.D])
 		accept, removedFlag := m.step(e)
 		var digestBefore string
+		im.maskClient, im.maskDoc = "", ""
+		if e.K == "attx" {
+			if di, err := im.r.W.BE.DB.FindDocInfoByKey(im.ctx, im.proj.ID, im.dkey[e.D]); err == nil && di != nil {
+				im.maskClient, im.maskDoc = im.cid[e.C], di.ID.String()
+			}
+		}
 		if !accept {
 			digestBefore = im.digest()
 		}
@@ -668,6 +720,65 @@ func c11Run(env *Env) *Result {
 	} else if env.Shard == 0 {
 		res.Completed = append(res.Completed, fmt.Sprintf("c11/all-sequences<=%d", maxLen))
 	}
+	// (c) behind a refused attach: after two fixed prefixes that put a live
+	// document in place, ALL sequences of length <= 3 (thorough 4) over the full
+	// alphabet plus attx (an attach the server refuses after it started working
+	// on it; what it leaves in the client's row must not count as attached)
+	for pi, prefix := range [][]lcEvent{
+		{{"act", 0, 0}, {"att", 0, 0}, {"act", 1, 0}},
+		{{"act", 0, 0}, {"att", 0, 0}, {"det", 0, 0}},
+	} {
+		m0 := newLcModel()
+		for _, e := range prefix {
+			m0.step(e)
+		}
+		m0.AllowX = true
+		depth := 3
+		if env.Tier == "thorough" {
+			depth = 4
+		}
+		n := 0
+		var recX func(m *lcModel, tail []lcEvent, hasX bool)
+		recX = func(m *lcModel, tail []lcEvent, hasX bool) {
+			for _, e := range m.enabled() {
+				if env.Expired() {
+					incomplete = true
+					return
+				}
+				m2 := *m
+				m2.step(e)
+				t2 := append(append([]lcEvent(nil), tail...), e)
+				x2 := hasX || e.K == "attx"
+				n++
+				if x2 && n%env.NShards == env.Shard {
+					if rr, err := Runner(); err == nil {
+						r = rr
+					}
+					full := append(append([]lcEvent(nil), prefix...), t2...)
+					if n%16 == 0 {
+						raw, _ := json.Marshal(lcCase{Seq: full})
+						env.Current(&Found{Property: "C11", Case: raw})
+					}
+					_, msg := lcReplay(r, full)
+					res.Evaluations++
+					res.Transitions++
+					res.Nontrivial++
+					res.Count("sequences_behind_a_refused_attach", 1)
+					if msg != "" {
+						report(full, msg)
+						continue
+					}
+				}
+				if len(t2) < depth {
+					recX(&m2, t2, x2)
+				}
+			}
+		}
+		recX(m0, nil, false)
+		if !incomplete && env.Shard == 0 {
+			res.Completed = append(res.Completed, fmt.Sprintf("c11/behind-refused-attach/prefix%d/len<=%d", pi, depth))
+		}
+	}
 	// (b) breadth-first search over canonical model states to a fixpoint:
 	// one shortest path per state, every enabled event tried from every state.
 	if env.Shard == 0 || true {
@@ -736,6 +847,7 @@ func init() {
 		ID:    "C11",
 		Level: "model_checking",
 		Rule: "reference model = the documented client/document state machine as plain Go values (client: none/activated/deactivated; (client,document): none/attached/detached/removed; document generations). " +
+			"(c) behind a refused attach: after the prefixes [act c0, att c0 d0, act c1] and [act c0, att c0 d0, det c0 d0], ALL sequences of <=3 (thorough 4) events over the same alphabet plus attx (an AttachDocument whose pack has a gap in its client sequence: the server refuses it after it started working on it; its marker in the client's row is masked in the digest and must not count as attached), executed when they contain attx; " +
 			"(a) ALL sequences of length <=4 (thorough 5) over {Activate, Deactivate(sync), Attach(new instance), Attach(reused detached instance), PushPull, Detach, Remove} x 2 clients x 2 documents, valid and invalid, " +
 			"each replayed with raw RPC stubs against the real server; (b) breadth-first search over canonical model states to a fixpoint (every enabled event from every reachable state, shortest path replayed on the real server); " +
 			"oracle at every step: accept/reject equals the model, removed flag in responses equals the model, no change is stored in a removed document, " +
